@@ -65,6 +65,7 @@ pub fn ls_check(id: &str) -> Option<LsCheck> {
                 name: "current-value",
                 interpose: 4,
                 patience_per_10k: 12,
+                negative_costs: true,
                 w: w(|w| {
                     w.remove = 14;
                     w.clear = 3;
@@ -843,7 +844,8 @@ pub fn comp_parts(id: &str) -> Vec<CompPart> {
         "C14" => vec![CompPart { engine: "bloom", quick: 60_000, thorough: 1_000_000 }],
         "C18" => vec![CompPart { engine: "keys", quick: 60_000, thorough: 1_000_000 }, CompPart { engine: "typed-keys", quick: 1_200, thorough: 24_000 }],
         "C02" => vec![CompPart { engine: "typed-keys", quick: 1_200, thorough: 24_000 }],
-        "C17" => vec![CompPart { engine: "hist", quick: 60_000, thorough: 1_000_000 }],
+        "C17" => vec![CompPart { engine: "hist", quick: 60_000, thorough: 1_000_000 }, CompPart { engine: "scale", quick: 16, thorough: 160 }],
+        "C08" => vec![CompPart { engine: "scale", quick: 16, thorough: 160 }],
         "C04" => vec![CompPart { engine: "typed-c04", quick: 1_600, thorough: 30_000 }],
         "C09" => vec![CompPart { engine: "typed-c09", quick: 1_600, thorough: 30_000 }],
         "C03" => vec![CompPart { engine: "typed-c03", quick: 1_600, thorough: 30_000 }],
@@ -866,6 +868,7 @@ pub fn run_comp_part(prop: &str, part: &CompPart, tier: &str, seed: u64, stats: 
         "typed-c03" => run_comp(prop, "typed", comp::typed_strategy, comp::run_typed_c03, n, seed, stats),
         "typed-all" => run_comp(prop, "typed", comp::typed_strategy, comp::run_typed_all, n, seed, stats),
         "typed-keys" => run_comp(prop, "typed", comp::keyed_strategy, comp::run_typed_c04, n, seed, stats),
+        "scale" => run_comp(prop, "scale", comp::scale_strategy, comp::run_scale, n, seed, stats),
         _ => unreachable!(),
     }
 }
@@ -882,6 +885,7 @@ pub fn replay_comp(engine: &str, case: serde_json::Value) -> Option<Result<(), S
         "bloom" => go(case, comp::run_bloom),
         "keys" => go(case, comp::run_keys),
         "hist" => go(case, comp::run_hist),
+        "scale" => go(case, comp::run_scale),
         "typed" => go(case, comp::run_typed_all),
         _ => return None,
     })
@@ -1458,4 +1462,219 @@ pub fn fuzz_target_for(id: &str) -> Option<&'static str> {
         "C07" | "C13" | "C14" => Some("estimators"),
         _ => None,
     }
+}
+
+// ------------------------------------------------------------------------------------------
+// C01: costs at the top of the i64 range (child process per case: a dead processor hangs wait())
+// ------------------------------------------------------------------------------------------
+
+#[derive(Clone, Debug, serde::Serialize, serde::Deserialize, Hash)]
+pub struct HugeCostCase {
+    /// the explicit cost is i64::MAX - below
+    pub below: u64,
+    pub ignore_internal_cost: bool,
+    /// false: insert of a new key; true: update of a resident key
+    pub update: bool,
+    pub metrics: bool,
+}
+
+pub fn huge_cost_strategy() -> proptest::strategy::BoxedStrategy<HugeCostCase> {
+    use proptest::prelude::*;
+    let isz = crate::gen::item_size() as u64;
+    (
+        prop_oneof![
+            3 => 0u64..=isz,                                  // cost + overhead leaves the i64 range
+            2 => (isz + 1)..=(2 * isz + 15),                  // cost + overhead fits, running total + cost does not (update of one of two residents)
+            1 => (2 * isz + 16)..=(2 * isz + 4000),           // just below: everything fits
+            3 => prop_oneof![Just(1u64 << 40), Just(i64::MAX as u64 / 2), Just(i64::MAX as u64 - 1_000_000)],   // plain oversize
+        ],
+        any::<bool>(),
+        any::<bool>(),
+        any::<bool>(),
+    )
+        .prop_map(|(below, ignore_internal_cost, update, metrics)| HugeCostCase { below, ignore_internal_cost, update, metrics })
+        .boxed()
+}
+
+/// runs in the child (`sv hugecost <json>`): prints one JSON line {status, msg}
+pub fn huge_cost_child(c: &HugeCostCase) -> serde_json::Value {
+    use stretto::TransparentKeyBuilder as T;
+    let cost = i64::MAX - c.below as i64;
+    let max_cost = 1000i64;
+    let cache = match stretto::CacheBuilder::<u64, u64, T<u64>>::new_with_key_builder(64, max_cost, T::default())
+        .set_ignore_internal_cost(c.ignore_internal_cost)
+        .set_metrics(c.metrics)
+        .finalize()
+    {
+        Ok(c) => c,
+        Err(e) => return json!({"status": "harness", "msg": format!("cache could not be built: {}", e)}),
+    };
+    let fail = |m: String| json!({"status": "violation", "msg": m});
+    if !matches!(cache.try_insert(1, 1, 1), Ok(true)) || cache.wait().is_err() || cache.get(&1).is_none() {
+        return json!({"status": "harness", "msg": "set-up insert failed"});
+    }
+    if c.update {
+        // a second resident: the running total then holds more than the entry being re-priced
+        if !matches!(cache.try_insert(4, 4, 1), Ok(true)) || cache.wait().is_err() {
+            return json!({"status": "harness", "msg": "set-up insert failed"});
+        }
+    }
+    let key = if c.update { 1 } else { 2 };
+    let r = cache.try_insert(key, 7, cost);
+    if r.is_err() {
+        return fail(format!("insert(k, v, {}) returned {:?}", cost, r));
+    }
+    if let Err(e) = cache.wait() {
+        return fail(format!("wait() after insert(k, v, {}) failed: {}", cost, e));
+    }
+    let snap = cache.verif_snapshot();
+    let sum: i64 = snap.costs.iter().map(|(_, c)| *c).fold(0i64, |a, b| a.saturating_add(b));
+    if !c.update {
+        // an entry whose own cost exceeds max_cost is never admitted
+        if cache.get(&2).is_some() || snap.costs.iter().any(|(k, _)| *k == 2) {
+            return fail(format!("an entry of cost {} was admitted into a cache of max_cost {} (charges {:?})", cost, max_cost, snap.costs));
+        }
+        if snap.used > max_cost || snap.used != sum {
+            return fail(format!("after offering an entry of cost {}: charged total {} (max_cost {}), sum of charges {}", cost, snap.used, max_cost, sum));
+        }
+    } else if snap.used != sum && sum != i64::MAX {
+        return fail(format!("after updating a resident entry to cost {}: charged total {} != sum of charges {}", cost, snap.used, sum));
+    }
+    // the cache goes on working
+    let _ = cache.try_remove(&1);
+    if !matches!(cache.try_insert(3, 3, 1), Ok(true)) {
+        return fail(format!("after an entry of cost {} was offered, a cost-1 insert is not accepted", cost));
+    }
+    if let Err(e) = cache.wait() {
+        return fail(format!("wait() failed afterwards: {}", e));
+    }
+    if cache.get(&3).is_none() {
+        return fail(format!("after an entry of cost {} was offered{}, a cost-1 entry is not admitted into the otherwise empty cache", cost, if c.update { " as an update" } else { "" }));
+    }
+    json!({"status": "ok", "msg": ""})
+}
+
+pub fn run_huge_cost_probe(prop: &str, tier: &str, seed: u64, stats: &Stats, known: &[KnownEntry], known_hit: &mut Vec<String>) -> CheckOutcome {
+    let n = if tier_is_thorough(tier) { 400 } else { 48 };
+    let cases: Vec<HugeCostCase> = sample_values(&huge_cost_strategy(), n, seed.wrapping_mul(77).wrapping_add(5));
+    let isz = crate::gen::item_size() as u64;
+    let exe = std::env::current_exe().expect("current exe");
+    let results: Vec<(HugeCostCase, String, String)> = std::thread::scope(|s| {
+        let chunks: Vec<&[HugeCostCase]> = cases.chunks(cases.len().div_ceil(16).max(1)).collect();
+        let hs: Vec<_> = chunks
+            .into_iter()
+            .map(|ch| {
+                let exe = exe.clone();
+                s.spawn(move || {
+                    let mut out = Vec::new();
+                    for c in ch {
+                        let arg = serde_json::to_string(c).unwrap();
+                        let internal = if c.ignore_internal_cost { 0 } else { isz };
+                        let expected_overflow = if c.update { c.below < 2 * internal + 1 } else { c.below < internal };
+                        // a child that does not answer in 10 s is stuck (it has milliseconds of work);
+                        // where no arithmetic can overflow that is only believed after a second
+                        // attempt with a minute's patience
+                        let mut attempt = 0;
+                        loop {
+                            attempt += 1;
+                            let limit = std::time::Duration::from_secs(if attempt == 1 { 10 } else { 60 });
+                            let mut child = match std::process::Command::new(&exe).args(["hugecost", &arg]).stdout(std::process::Stdio::piped()).stderr(std::process::Stdio::null()).spawn() {
+                                Ok(ch) => ch,
+                                Err(e) => {
+                                    out.push((c.clone(), "harness".to_string(), e.to_string()));
+                                    break;
+                                }
+                            };
+                            let t0 = std::time::Instant::now();
+                            let mut done = false;
+                            while t0.elapsed() < limit {
+                                if let Ok(Some(_)) = child.try_wait() {
+                                    done = true;
+                                    break;
+                                }
+                                std::thread::sleep(std::time::Duration::from_millis(10));
+                            }
+                            if !done {
+                                let _ = child.kill();
+                                let _ = child.wait();
+                                if !expected_overflow && attempt == 1 {
+                                    continue;
+                                }
+                                out.push((c.clone(), "stuck".to_string(), format!("the child did not finish within {} s (a wait() that never returns: the processor is gone)", limit.as_secs())));
+                                break;
+                            }
+                            let o = child.wait_with_output().map(|o| String::from_utf8_lossy(&o.stdout).into_owned()).unwrap_or_default();
+                            let v: serde_json::Value = o.lines().rev().find_map(|l| serde_json::from_str(l).ok()).unwrap_or(json!({"status": "crash", "msg": "the child died without an answer (panic in the caller?)"}));
+                            out.push((c.clone(), v["status"].as_str().unwrap_or("crash").to_string(), v["msg"].as_str().unwrap_or("").to_string()));
+                            break;
+                        }
+                    }
+                    out
+                })
+            })
+            .collect();
+        hs.into_iter().flat_map(|h| h.join().unwrap()).collect()
+    });
+    let mut violation = None;
+    let mut harness = None;
+    for (c, status, msg) in results {
+        // cost arithmetic leaves the i64 range: cost + internal overhead, or (update) cost + running total
+        // (new key: charge = cost + overhead; update of one of two cost-1 residents: the running
+        // total becomes (1 + overhead) + cost + overhead)
+        let internal = if c.ignore_internal_cost { 0 } else { isz };
+        let overflows = if c.update { c.below < 2 * internal + 1 } else { c.below < internal };
+        stats.case(hash_of(&c), overflows, || json!({"engine": "hugecost", "case": c}));
+        stats.count("hugecost:cases");
+        stats.count(if overflows { "hugecost:arithmetic_leaves_i64" } else { "hugecost:plain_oversize" });
+        match status.as_str() {
+            "ok" => {}
+            "harness" => harness = Some(msg),
+            _ => {
+                if overflows {
+                    if let Some(k) = known.iter().find(|k| k.signature == "huge_cost_arithmetic_overflow") {
+                        *stats.known_hits.lock().entry(k.signature.clone()).or_insert(0) += 1;
+                        let line = format!("KNOWN-FINDING: property={} {} ({})", prop, k.signature, k.what);
+                        if !known_hit.contains(&line) {
+                            known_hit.push(line);
+                        }
+                        continue;
+                    }
+                }
+                if violation.is_none() {
+                    let m = format!("[huge_cost] {:?} (cost i64::MAX - {}): {} - {}", c, c.below, status, msg);
+                    let path = write_replay(prop, "hugecost", &c, &m);
+                    violation = Some((m, path));
+                }
+            }
+        }
+    }
+    if let Some(h) = harness {
+        return CheckOutcome { violation: None, inconclusive: Some(format!("huge-cost probe: {}", h)) };
+    }
+    CheckOutcome { violation, inconclusive: None }
+}
+
+/// `sv replay C01 <hugecost file>`: one case in a child process; (status, message, arithmetic leaves i64)
+pub fn replay_huge_cost(c: &HugeCostCase) -> (String, String, bool) {
+    let isz = crate::gen::item_size() as u64;
+    let internal = if c.ignore_internal_cost { 0 } else { isz };
+    let overflows = if c.update { c.below < 2 * internal + 1 } else { c.below < internal };
+    let exe = std::env::current_exe().expect("current exe");
+    let arg = serde_json::to_string(c).unwrap();
+    let mut child = match std::process::Command::new(&exe).args(["hugecost", &arg]).stdout(std::process::Stdio::piped()).stderr(std::process::Stdio::null()).spawn() {
+        Ok(ch) => ch,
+        Err(e) => return ("harness".into(), e.to_string(), overflows),
+    };
+    let t0 = std::time::Instant::now();
+    while t0.elapsed() < std::time::Duration::from_secs(60) {
+        if let Ok(Some(_)) = child.try_wait() {
+            let o = child.wait_with_output().map(|o| String::from_utf8_lossy(&o.stdout).into_owned()).unwrap_or_default();
+            let v: serde_json::Value = o.lines().rev().find_map(|l| serde_json::from_str(l).ok()).unwrap_or(json!({"status": "crash", "msg": "the child died without an answer"}));
+            return (v["status"].as_str().unwrap_or("crash").to_string(), v["msg"].as_str().unwrap_or("").to_string(), overflows);
+        }
+        std::thread::sleep(std::time::Duration::from_millis(10));
+    }
+    let _ = child.kill();
+    let _ = child.wait();
+    ("stuck".into(), "the child did not finish within 60 s (a wait() that never returns: the processor is gone)".into(), overflows)
 }
